@@ -476,6 +476,51 @@ def run(index, rep, tier):
         rep.floor("R14.10", "loops in write_csv", 2, nl)
         rep.floor("R14.10", "set-valued attributes of the matrix", 1, len(setattrs))
 
+    # ---- R14.11 nothing derived from one compilation survives into the next
+    with rep.section("R14.11"):
+        rep.rule("R14.11", "nothing derived from one compilation survives into the next: every instance attribute of PhylogeneticDistanceMatrix that is written anywhere but as a plain constructor option is reset by clear(), and compile_from_tree / compile_from_dict call clear() before they write anything - a memo kept outside that discipline answers for the tree that was compiled before")
+        PDMQ = "dendropy.calculate.phylogeneticdistance.PhylogeneticDistanceMatrix"
+        pci = index.klass(PDMQ)
+        wr = {}
+        for f in pci.methods.values():
+            for x in writes_in(f.node):
+                if x.base is not None and norm(x.base) == "self":
+                    wr.setdefault(x.attr, []).append((f, x))
+        if "clear" not in pci.methods:
+            raise AnalysisError("R14.11: PhylogeneticDistanceMatrix.clear vanished")
+        cleared = {a for a, v in wr.items() if any(f.name == "clear" and x.kind == "store" for f, x in v)}
+        n11 = 0
+        for a, v in sorted(wr.items()):
+            config = all(f.name == "__init__" and x.kind == "store" and isinstance(x.value, ast.Name) and x.value.id in f.all_params for f, x in v)
+            if config:
+                continue
+            n11 += 1
+            f0, x0 = [(f, x) for f, x in v if f.name != "clear"][0] if any(f.name != "clear" for f, x in v) else v[0]
+            rep.check(a in cleared, "R14.11", PDMQ, "`self.%s` is not reset by clear()" % a, fn_where(f0, x0.stmt), "self.%s is reset by clear()" % a,
+                      "PhylogeneticDistanceMatrix keeps `self.%s` (written in %s) but clear() does not reset it: compile_from_tree / compile_from_dict start from clear(), so after the matrix is re-compiled for another tree this attribute still describes the previous one and every query that reads it answers for taxa that may no longer be there"
+                      % (a, sorted({f.name for f, x in v})))
+        rep.floor("R14.11", "derived attributes of the distance matrix", 8, n11)
+        for nm in ("compile_from_tree", "compile_from_dict"):
+            f = pci.methods[nm]
+            g = cfg_of(f)
+
+            def clears(n):
+                return any(call_name(c) == "clear" and isinstance(c.func, ast.Attribute) and norm(c.func.value) == "self" for c in node_calls(n))
+            for x in writes_in(f.node):
+                if x.base is None or norm(x.base) != "self":
+                    continue
+                nd = node_of_ast(g, x.stmt)
+                ok = nd is not None and g.dominated_by(nd, clears)
+                rep.check(ok, "R14.11", f.qualname, "`self.%s` written before clear()" % x.attr, fn_where(f, x.stmt), "%s: self.%s written after clear()" % (nm, x.attr),
+                          "%s writes `self.%s` on a path that has not called self.clear(): what the previous compilation left in the matrix is mixed into the new one" % (f.qualname, x.attr))
+
+    # ---- R14.12 bitmasks are sets
+    with rep.section("R14.12"):
+        rep.rule("R14.12", "bitmasks are sets: in the namespace, the bipartition code, the tree model and the distance code a bitmask is combined with | & ^ ~ and shifts, never with + - * or sum() (addition is union only for disjoint operands; `x - 1` lowest-bit tricks excepted)")
+        nbm = bitmask_algebra_rule(index, rep, "R14.12", ["dendropy.datamodel.taxonmodel", "dendropy.datamodel.treemodel._bipartition", "dendropy.datamodel.treemodel._tree", "dendropy.datamodel.treemodel._node",
+                                                         "dendropy.datamodel.treecollectionmodel", "dendropy.calculate.phylogeneticdistance", "dendropy.calculate.treecompare", "dendropy.utility.bitprocessing"])
+        rep.floor("R14.12", "bitmask operations examined", 25, nbm)
+
 
 def option_default_rule(index, rep, rid, cq, options):
     ci = index.klass(cq)
